@@ -322,11 +322,11 @@ func (u UnitBytes) MarshalJSON() ([]byte, error) {
 			continue
 		}
 		o.Environment[k] = v''', '''		o.Environment[k] = v''', "OS variables override explicit ones (ENV)"),
- ("C18", "missing-minus1-test", "K", "dotenv/parser.go", '''	pos := p.indexOfNonSpaceChar(src)
-	if pos == -1 {
-		return ""
-	}
-''', '''	pos := p.indexOfNonSpaceChar(src)
+ ("C18", "missing-minus1-test", "K", "dotenv/parser.go", '''		pos := p.indexOfNonSpaceChar(src)
+		if pos == -1 {
+			return ""
+		}
+''', '''		pos := p.indexOfNonSpaceChar(src)
 ''', "slice with index -1 on blank input (PANIC-IDX)"),
  ("C18", "unterminated-accepted", "K", "dotenv/parser.go", '''	return "", "", fmt.Errorf("line %d: unterminated quoted value %s", p.line, src[:valEndIndex])''', '''	return src[:valEndIndex], "", nil''', "unterminated quote accepted (ERRRET)"),
  ("C19", "done-without-lock", "K", "graph/traversal.go", '''func (t *traversal[S, T]) done(v *vertex[S], result T) {
